@@ -203,7 +203,7 @@ for (q, qn) in [("overflow", "FixedSizeSafelyOverflowingIndexQueue<2>"), ("index
                                           "complete pops in the gaps"),
                        ("consumer_outer", "consumer preempted at each of its shared-memory operations, producer runs "
                                           "complete pushes in the gaps")]:
-        nc = 2
+        nc = 1 if (role == "consumer_outer" and q != "overflow") else 2
         _c03.append(H("c03::sched::c03_s_%s_%s" % (q, role), crate="hs", covers=nc, timeout=1500, mem_gb=8, tiers=("quick",),
                       what="%s: %s; conservation, FIFO order, capacity, legitimate failures" % (qn, rn),
                       bounds="unwind 10; 2 outer operations, <= 1-2 inner operations, every preemption point"))
@@ -320,12 +320,20 @@ PROPS["C12"] = {
           what="sequential: store (both flavours) / load round trip, unpublished write invisible, single producer",
           bounds="unwind 10; 3 stores"),
         H("c12::c12_seq_raw_layout_align1", covers=1, timeout=1500, mem_gb=8,
-          what="raw management API (run-time type details), alignment 1: cells aligned, disjoint, inside the computed "
-               "size; raw store/load round trip", bounds="unwind 14; size 1..=3, misalign<8"),
+          what="raw management API (run-time type details), alignment 1: management block and both cells aligned, "
+               "disjoint, inside the computed size (address arithmetic, every misalignment of the raw memory)",
+          bounds="unwind 14; size 1..=3, misalign<8"),
         H("c12::c12_seq_raw_layout_align4", covers=1, timeout=1500, mem_gb=8,
           what="same, alignment 4", bounds="unwind 14; size 4/8/12, misalign<8"),
         H("c12::c12_seq_raw_layout_align8", covers=1, timeout=1500, mem_gb=8,
           what="same, alignment 8", bounds="unwind 14; size 8, misalign<8"),
+        H("c12::c12_seq_raw_roundtrip_a1_s3_m7", covers=1, timeout=1500, mem_gb=8,
+          what="raw store / publish / load round trip twice, arbitrary bytes; alignment 1, size 3, raw memory misaligned by 7",
+          bounds="unwind 14; 2 stores; concrete size/alignment/misalignment"),
+        H("c12::c12_seq_raw_roundtrip_a4_s12_m5", covers=1, timeout=1500, mem_gb=8,
+          what="same; alignment 4, size 12, misaligned by 5", bounds="unwind 14; 2 stores"),
+        H("c12::c12_seq_raw_roundtrip_a8_s8_m1", covers=1, timeout=1500, mem_gb=8,
+          what="same; alignment 8, size 8, misaligned by 1", bounds="unwind 14; 2 stores"),
         H("c12::sched::c12_s_reader_outer", crate="hs", covers=3, timeout=1800, mem_gb=10, tiers=("quick",),
           what="reader preempted at every shared operation and in the middle of its copy; writer runs complete stores: "
                "no torn value, monotone, not older than completed stores", bounds="unwind 6; 2 loads, <=2 writer actions (store / write loan / publish loan)"),
@@ -520,6 +528,15 @@ PROPS["C02"] = {
     ],
     "claimed": False,
 }
+PROPS["C02"]["harnesses"] += [
+    H("cal::conn::c02_used_chunk_list_history", features=CAL, covers=1, timeout=1500, mem_gb=6,
+      what="FixedSizeUsedChunkList<4>: insert/remove/remove_all history vs bit-mask model (what the sender gets back "
+           "when a receiver vanishes)", bounds="unwind 8; 5 steps"),
+]
+PROPS["C14"]["harnesses"] += [
+    H("cal::conn::c14_used_chunk_list_relocation", features=CAL, covers=1, timeout=1500, mem_gb=6,
+      what="FixedSizeUsedChunkList<3> byte-copied to a fresh block between two inserts", bounds="unwind 8"),
+]
 PROPS["C08"] = {
     "bounds": "per connection: receiver side never holds more than buffer + max borrowed; receive beyond max borrow "
               "refused without effect and possible again after one release; release never fails; index sets refuse the "
